@@ -1,15 +1,83 @@
-(* Text/Lex_proofs.v -- facts about the lexer automaton. Axiom-free. *)
-From Coq Require Import NArith List Bool Lia.
+(* Text/Lex_proofs.v -- the lexer reads back what the renderer writes. Axiom-free. *)
+From Coq Require Import NArith List Bool Lia ZArith ZifyN ZifyBool.
 From SCAD Require Import Text.Chars Text.Lex Text.Emit.
 Import ListNotations.
 Local Open Scope N_scope.
 
 Lemma lrun_app s a b : lrun s (a ++ b) = lrun (lrun s a) b.
 Proof. unfold lrun. apply fold_left_app. Qed.
+Lemma lrun_cons s c r : lrun s (c :: r) = lrun (lstep s c) r.
+Proof. reflexivity. Qed.
 
-(* string escaping: the lexer reads an escaped string back as the same code points, for every string *)
-Lemma lrun_esc_char acc out c :
-  lrun (LS (MStr acc) out) (esc_char c) = LS (MStr (c :: acc)) out.
+(* ---- character classes ---- *)
+Definition delim (d : N) : bool := is_punct d || is_ws d.
+Definition starts_delim (t : text) : Prop := match t with d :: _ => delim d = true | [] => False end.
+
+Ltac classes := unfold delim, is_num_char, is_punct, is_ws, is_id_start, is_id_char, is_alpha, is_digit in *.
+Lemma punct_not_ws c : is_punct c = true -> is_ws c = false. Proof. classes. lia. Qed.
+Lemma idstart_not_ws c : is_id_start c = true -> is_ws c = false. Proof. classes. lia. Qed.
+Lemma idstart_not_punct c : is_id_start c = true -> is_punct c = false. Proof. classes. lia. Qed.
+Lemma delim_not_idchar d : delim d = true -> is_id_char d = false. Proof. classes. lia. Qed.
+Lemma delim_not_numchar d : delim d = true -> is_num_char d = false. Proof. classes. lia. Qed.
+Lemma delim_not_idstart d : delim d = true -> is_id_start d = false. Proof. classes. lia. Qed.
+Definition num_start (c : N) : bool := is_digit c || (c =? 45) || (c =? 46).
+Lemma numstart_facts c : num_start c = true -> is_ws c = false /\ is_punct c = false /\ is_id_start c = false.
+Proof. unfold num_start. classes. lia. Qed.
+Lemma quote_facts : is_ws 34 = false /\ is_punct 34 = false /\ is_id_start 34 = false /\ num_start 34 = false.
+Proof. repeat split; reflexivity. Qed.
+
+(* ---- pieces ---- *)
+Lemma step_default out c : lstep (LS MDefault out) c = start_default out c. Proof. reflexivity. Qed.
+
+Lemma lrun_punct c out : is_punct c = true -> lrun (LS MDefault out) [c] = LS MDefault (TP c :: out).
+Proof. intros Hp. cbn. unfold lstep, start_default. cbn [lmode lout]. rewrite (punct_not_ws c Hp), Hp. reflexivity. Qed.
+Lemma lrun_ws w out : forallb is_ws w = true -> lrun (LS MDefault out) w = LS MDefault out.
+Proof.
+  induction w as [|c w IH]; intros H; [reflexivity|]. cbn [forallb] in H. apply andb_prop in H as [Hc Hw].
+  rewrite lrun_cons, step_default. unfold start_default. rewrite Hc. apply IH. assumption.
+Qed.
+
+Definition wf_id (w : text) : Prop :=
+  match w with c :: w' => is_id_start c = true /\ forallb is_id_char w' = true | [] => False end.
+Definition wf_num (w : text) : Prop :=
+  match w with c :: w' => num_start c = true /\ forallb is_num_char w' = true | [] => False end.
+
+Lemma lrun_ident_body w acc out rest : forallb is_id_char w = true ->
+  lrun (LS (MIdent acc) out) (w ++ rest) = lrun (LS (MIdent (rev w ++ acc)) out) rest.
+Proof.
+  revert acc. induction w as [|c w IH]; intros acc H; [reflexivity|]. cbn [forallb] in H. apply andb_prop in H as [Hc Hw].
+  cbn [app]. rewrite lrun_cons. unfold lstep at 1. cbn [lmode lout]. rewrite Hc. rewrite IH by assumption.
+  cbn [rev]. rewrite <- app_assoc. reflexivity.
+Qed.
+Lemma lrun_ident w out rest : wf_id w -> starts_delim rest ->
+  lrun (LS MDefault out) (w ++ rest) = lrun (LS MDefault (TId w :: out)) rest.
+Proof.
+  destruct w as [|c w]; [intros []|]. intros [Hc Hw] Hd. cbn [app]. rewrite lrun_cons, step_default.
+  unfold start_default. rewrite (idstart_not_ws c Hc), (idstart_not_punct c Hc), Hc.
+  rewrite lrun_ident_body by assumption. destruct rest as [|d rest]; [contradiction|]. cbn in Hd.
+  rewrite !lrun_cons. unfold lstep at 1. cbn [lmode lout]. rewrite (delim_not_idchar d Hd).
+  rewrite rev_app_distr. cbn [rev app]. rewrite rev_involutive. reflexivity.
+Qed.
+Lemma lrun_num_body w acc out rest : forallb is_num_char w = true ->
+  lrun (LS (MNum acc) out) (w ++ rest) = lrun (LS (MNum (rev w ++ acc)) out) rest.
+Proof.
+  revert acc. induction w as [|c w IH]; intros acc H; [reflexivity|]. cbn [forallb] in H. apply andb_prop in H as [Hc Hw].
+  cbn [app]. rewrite lrun_cons. unfold lstep at 1. cbn [lmode lout]. rewrite Hc. rewrite IH by assumption.
+  cbn [rev]. rewrite <- app_assoc. reflexivity.
+Qed.
+Lemma lrun_num w out rest : wf_num w -> starts_delim rest ->
+  lrun (LS MDefault out) (w ++ rest) = lrun (LS MDefault (TNum w :: out)) rest.
+Proof.
+  destruct w as [|c w]; [intros []|]. intros [Hc Hw] Hd. cbn [app]. rewrite lrun_cons, step_default.
+  destruct (numstart_facts c Hc) as (H1 & H2 & H3). unfold start_default. rewrite H1, H2, H3.
+  replace (is_digit c || (c =? 45) || (c =? 46)) with true by (symmetry; exact Hc).
+  rewrite lrun_num_body by assumption. destruct rest as [|d rest]; [contradiction|]. cbn in Hd.
+  rewrite !lrun_cons. unfold lstep at 1. cbn [lmode lout]. rewrite (delim_not_numchar d Hd), (delim_not_idstart d Hd).
+  rewrite rev_app_distr. cbn [rev app]. rewrite rev_involutive. reflexivity.
+Qed.
+
+(* strings: for every string of code points *)
+Lemma lrun_esc_char acc out c : lrun (LS (MStr acc) out) (esc_char c) = LS (MStr (c :: acc)) out.
 Proof.
   unfold esc_char.
   destruct (N.eqb_spec c 92) as [-> | H92]; [reflexivity|].
@@ -21,18 +89,158 @@ Proof.
   destruct (N.eqb_spec c 34); [contradiction|]. destruct (N.eqb_spec c 92); [contradiction|].
   destruct (N.eqb_spec c 10); [contradiction|]. reflexivity.
 Qed.
-
-Lemma lrun_esc_string s acc out :
-  lrun (LS (MStr acc) out) (flat_map esc_char s) = LS (MStr (rev s ++ acc)) out.
+Lemma lrun_esc_string s acc out : lrun (LS (MStr acc) out) (flat_map esc_char s) = LS (MStr (rev s ++ acc)) out.
 Proof.
   revert acc. induction s as [|c s IH]; intros acc; [reflexivity|].
   cbn [flat_map]. rewrite lrun_app, lrun_esc_char, IH. cbn [rev]. rewrite <- app_assoc. reflexivity.
 Qed.
-
-(* a quoted, escaped string lexes to exactly one string token holding the original code points *)
 Theorem string_readback (s : text) out :
   lrun (LS MDefault out) ([34] ++ flat_map esc_char s ++ [34]) = LS MDefault (TStr s :: out).
 Proof.
   rewrite lrun_app. change (lrun (LS MDefault out) [34]) with (LS (MStr []) out).
   rewrite lrun_app, lrun_esc_string. cbn. rewrite app_nil_r, rev_involutive. reflexivity.
 Qed.
+
+(* ---- token streams of spaced values ---- *)
+Fixpoint t_expr (e : sexpr) : list token :=
+  match e with
+  | SNum l => [TNum l] | SStr s => [TStr s] | SId s => [TId s]
+  | SVec _ l => TP 91 :: (fix go (l : list sexpr) : list token :=
+                            match l with [] => [] | [x] => t_expr x | x :: tl => t_expr x ++ TP 44 :: go tl end) l ++ [TP 93]
+  end.
+Definition t_elems : list sexpr -> list token :=
+  fix go (l : list sexpr) : list token := match l with [] => [] | [x] => t_expr x | x :: tl => t_expr x ++ TP 44 :: go tl end.
+Lemma t_expr_vec sep l : t_expr (SVec sep l) = TP 91 :: t_elems l ++ [TP 93]. Proof. reflexivity. Qed.
+
+Definition wf_sep (sep : text) : Prop := match sep with c :: w => c = 44 /\ forallb is_ws w = true | [] => False end.
+Fixpoint wf_sexpr (e : sexpr) : Prop :=
+  match e with
+  | SNum l => wf_num l
+  | SStr _ => True
+  | SId s => wf_id s
+  | SVec sep l => wf_sep sep /\ (fix all (l : list sexpr) : Prop := match l with [] => True | x :: tl => wf_sexpr x /\ all tl end) l
+  end.
+Definition wf_list : list sexpr -> Prop :=
+  fix all (l : list sexpr) : Prop := match l with [] => True | x :: tl => wf_sexpr x /\ all tl end.
+
+Lemma lrun_sep sep out rest : wf_sep sep -> lrun (LS MDefault out) (sep ++ rest) = lrun (LS MDefault (TP 44 :: out)) rest.
+Proof.
+  destruct sep as [|c w]; [intros []|]. intros [-> Hw]. cbn [app]. rewrite lrun_cons.
+  change (lstep (LS MDefault out) 44) with (LS MDefault (TP 44 :: out)). rewrite lrun_app, lrun_ws by assumption. reflexivity.
+Qed.
+Lemma sep_starts_delim sep rest : wf_sep sep -> starts_delim (sep ++ rest).
+Proof. destruct sep as [|c w]; [intros []|]. intros [-> _]. reflexivity. Qed.
+
+Section ExprInd.
+  Variable P : sexpr -> Prop.
+  Hypothesis Hn : forall l, P (SNum l).
+  Hypothesis Hs : forall s, P (SStr s).
+  Hypothesis Hi : forall s, P (SId s).
+  Hypothesis Hv : forall sep l, Forall P l -> P (SVec sep l).
+  Fixpoint sexpr_ind' (e : sexpr) : P e :=
+    match e with
+    | SNum l => Hn l | SStr s => Hs s | SId s => Hi s
+    | SVec sep l => Hv sep l ((fix go (l : list sexpr) : Forall P l :=
+                                match l with [] => Forall_nil _ | x :: tl => Forall_cons x (sexpr_ind' x) (go tl) end) l)
+    end.
+End ExprInd.
+
+Theorem lex_expr : forall e, wf_sexpr e -> forall out rest, starts_delim rest ->
+  lrun (LS MDefault out) (r_expr e ++ rest) = lrun (LS MDefault (rev (t_expr e) ++ out)) rest.
+Proof.
+  induction e as [l | s | s | sep l IH] using sexpr_ind'; intros Hwf out rest Hd.
+  - cbn [r_expr t_expr rev app]. apply lrun_num; assumption.
+  - change (r_expr (SStr s)) with ([34] ++ flat_map esc_char s ++ [34]). rewrite lrun_app, string_readback. reflexivity.
+  - cbn [r_expr t_expr rev app]. apply lrun_ident; assumption.
+  - destruct Hwf as [Hsep Hall]. fold wf_list in Hall. cbn [r_expr]. rewrite t_expr_vec.
+    cbn [app]. rewrite lrun_cons. change (lstep (LS MDefault out) 91) with (LS MDefault (TP 91 :: out)).
+    rewrite <- app_assoc.
+    assert (G : forall l, Forall (fun e => wf_sexpr e -> forall out rest, starts_delim rest ->
+                  lrun (LS MDefault out) (r_expr e ++ rest) = lrun (LS MDefault (rev (t_expr e) ++ out)) rest) l ->
+                wf_list l -> forall out rest, starts_delim rest ->
+                lrun (LS MDefault out) (join sep (map r_expr l) ++ rest) = lrun (LS MDefault (rev (t_elems l) ++ out)) rest).
+    { clear IH Hall l. induction l as [|x l IHl]; intros HF Hw out0 rest0 Hd0; [reflexivity|].
+      inversion HF as [|? ? Hx HF']; subst. destruct Hw as [Hwx Hwl]. destruct l as [|y l].
+      - cbn [map join t_elems]. apply Hx; assumption.
+      - cbn [map join]. change (t_elems (x :: y :: l)) with (t_expr x ++ TP 44 :: t_elems (y :: l)).
+        rewrite <- !app_assoc. rewrite Hx; [|assumption|apply sep_starts_delim; assumption].
+        rewrite lrun_sep by assumption. change (map r_expr (y :: l)) with (map r_expr (y :: l)).
+        rewrite (IHl HF' Hwl) by assumption. rewrite rev_app_distr. cbn [rev]. rewrite <- !app_assoc. reflexivity. }
+    rewrite (G l IH Hall) by reflexivity. cbn [app]. rewrite lrun_cons.
+    match goal with |- lrun (lstep (LS MDefault ?o) 93) _ = _ => change (lstep (LS MDefault o) 93) with (LS MDefault (TP 93 :: o)) end.
+    cbn [rev]. rewrite !rev_app_distr. cbn [rev app]. rewrite <- !app_assoc. reflexivity.
+Qed.
+
+(* ---- arguments, headers, trees ---- *)
+Definition t_arg (a : sarg) : list token :=
+  match a with (Some n, e) => TId n :: TP 61 :: t_expr e | (None, e) => t_expr e end.
+Definition t_args : list sarg -> list token :=
+  fix go (l : list sarg) : list token := match l with [] => [] | [x] => t_arg x | x :: tl => t_arg x ++ TP 44 :: go tl end.
+Definition t_head (name : text) (args : list sarg) : list token := TId name :: TP 40 :: t_args args ++ [TP 41].
+
+Definition wf_arg (a : sarg) : Prop := match a with (Some n, e) => wf_id n /\ wf_sexpr e | (None, e) => wf_sexpr e end.
+
+Lemma lex_arg a : wf_arg a -> forall out rest, starts_delim rest ->
+  lrun (LS MDefault out) (r_arg a ++ rest) = lrun (LS MDefault (rev (t_arg a) ++ out)) rest.
+Proof.
+  destruct a as [[n|] e]; cbn [wf_arg r_arg t_arg]; intros Hw out rest Hd.
+  - destruct Hw as [Hn He]. rewrite <- !app_assoc. rewrite lrun_ident by (assumption || reflexivity).
+    cbn [app]. rewrite lrun_cons. change (lstep (LS MDefault (TId n :: out)) 61) with (LS MDefault (TP 61 :: TId n :: out)).
+    rewrite lex_expr by assumption. cbn [rev]. rewrite <- !app_assoc. reflexivity.
+  - apply lex_expr; assumption.
+Qed.
+
+Lemma comma_sp_wf : wf_sep comma_sp. Proof. split; reflexivity. Qed.
+Lemma comma_wf : wf_sep comma. Proof. split; reflexivity. Qed.
+
+Lemma lex_args l : Forall wf_arg l -> forall out rest, starts_delim rest ->
+  lrun (LS MDefault out) (join comma_sp (map r_arg l) ++ rest) = lrun (LS MDefault (rev (t_args l) ++ out)) rest.
+Proof.
+  induction l as [|x l IH]; intros HF out rest Hd; [reflexivity|]. inversion HF as [|? ? Hx HF']; subst.
+  destruct l as [|y l].
+  - cbn [map join t_args]. apply lex_arg; assumption.
+  - cbn [map join]. change (t_args (x :: y :: l)) with (t_arg x ++ TP 44 :: t_args (y :: l)).
+    rewrite <- !app_assoc. rewrite lex_arg; [|assumption|apply sep_starts_delim; apply comma_sp_wf].
+    rewrite lrun_sep by apply comma_sp_wf. rewrite (IH HF') by assumption.
+    rewrite rev_app_distr. cbn [rev]. rewrite <- !app_assoc. reflexivity.
+Qed.
+
+Lemma lex_head name args : wf_id name -> Forall wf_arg args -> forall out rest,
+  lrun (LS MDefault out) (r_head name args ++ rest) = lrun (LS MDefault (rev (t_head name args) ++ out)) rest.
+Proof.
+  intros Hn Ha out rest. unfold r_head, t_head. rewrite <- !app_assoc. rewrite lrun_ident by (assumption || reflexivity).
+  cbn [app]. rewrite lrun_cons. change (lstep (LS MDefault (TId name :: out)) 40) with (LS MDefault (TP 40 :: TId name :: out)).
+  rewrite lex_args by (assumption || reflexivity). cbn [app]. rewrite lrun_cons.
+  match goal with |- lrun (lstep (LS MDefault ?o) 41) _ = _ => change (lstep (LS MDefault o) 41) with (LS MDefault (TP 41 :: o)) end.
+  cbn [rev]. rewrite !rev_app_distr. cbn [rev app]. rewrite <- !app_assoc. reflexivity.
+Qed.
+
+(* decimal printing of N gives a number literal *)
+Lemma dec_digits_all fuel : forall n acc, forallb is_digit acc = true -> forallb is_digit (dec_digits_fuel fuel n acc) = true.
+Proof.
+  induction fuel as [|f IH]; intros n acc Ha; [assumption|]. cbn [dec_digits_fuel].
+  assert (Hd : is_digit (48 + n mod 10) = true).
+  { unfold is_digit. pose proof (N.mod_upper_bound n 10 ltac:(lia)). lia. }
+  destruct (n <? 10); [cbn [forallb]; rewrite Hd; assumption|]. apply IH. cbn [forallb]. rewrite Hd. assumption.
+Qed.
+Lemma dec_digits_suffix fuel : forall n acc, exists pre, dec_digits_fuel fuel n acc = pre ++ acc /\ (fuel <> O -> pre <> []).
+Proof.
+  induction fuel as [|f IH]; intros n acc; [exists []; split; [reflexivity|intros H; contradiction]|].
+  cbn [dec_digits_fuel]. destruct (n <? 10).
+  - exists [48 + n mod 10]. split; [reflexivity|discriminate].
+  - destruct (IH (n / 10) ((48 + n mod 10) :: acc)) as [pre [Hp _]].
+    exists (pre ++ [48 + n mod 10]). split; [rewrite Hp, <- app_assoc; reflexivity|].
+    intros _ E. apply app_eq_nil in E as [_ E]. discriminate.
+Qed.
+Lemma dec_of_N_wf n : wf_num (dec_of_N n).
+Proof.
+  unfold dec_of_N. set (fuel := S (N.to_nat (N.log2 n))).
+  destruct (dec_digits_suffix fuel n []) as [pre [Hp Hne]]. rewrite app_nil_r in Hp.
+  pose proof (dec_digits_all fuel n [] eq_refl) as Hd. rewrite Hp in *.
+  destruct pre as [|c w]; [exfalso; apply Hne; [discriminate|reflexivity]|].
+  cbn [forallb] in Hd. apply andb_prop in Hd as [Hc Hw]. split.
+  - unfold num_start. rewrite Hc. reflexivity.
+  - clear -Hw. induction w as [|x w IH]; [reflexivity|]. cbn [forallb] in *. apply andb_prop in Hw as [Hx Hw].
+    rewrite IH by assumption. unfold is_num_char. rewrite Hx. reflexivity.
+Qed.
+Lemma bool_text_wf b : wf_id (bool_text b). Proof. destruct b; split; reflexivity. Qed.
